@@ -4,6 +4,7 @@ import re
 import json
 import shutil
 import subprocess
+import time
 
 from . import run as RUN
 from . import kani as KANI
@@ -15,27 +16,34 @@ def generic_key(key):
     return k.replace(' ', '')
 
 
-def search(pid, fn_key, digit, mode, budget_s=600):
+def search(pid, fn_key, digit, mode, budget_s=600, stats=None):
     """run the harnesses registered as counter-example finders for fn_key; return the first
     concrete failing input found (as Kani playback tests) or None."""
     g = generic_key(fn_key)
     allh = [h for h in KANI.load_harnesses() if not h.get('disabled')]
     cands = [h for h in allh if g in [generic_key(x) for x in h.get('fn_keys', [])]]
+    exact = list(cands)
     if not cands:
         # no harness registered under exactly this key (trait impl methods, helper fns): harnesses of the same
         # property whose function keys name the same method
         short = g.split('::')[-1]
         cands = [h for h in allh if h.get('property') == pid and short in [generic_key(x).split('::')[-1] for x in h.get('fn_keys', [])]]
-    cands.sort(key=lambda h: h.get('est_s', 60))
+    cands.sort(key=lambda h: h.get('est_s') or 60)
     spent = 0
+    if stats is not None:
+        stats.update(run=0, passed=[], failed=[], unfinished=[], exact=bool(exact))
     for h in cands:
-        if spent + h.get('est_s', 60) > budget_s and spent > 0:
+        if spent + (h.get('est_s') or 60) > budget_s and spent > 0:
             break
         hm = h.get('mode', 'dbg')
         m = mode if hm == 'both' else hm
-        tests, r, raw = KANI.concrete_playback_all(h, mode=m, timeout=max(120, 4 * h.get('est_s', 60)))
-        spent += (r or {}).get('time_s') or h.get('est_s', 60)
+        t1 = time.time()
+        tests, r, raw = KANI.concrete_playback_all(h, mode=m, timeout=max(120, 4 * (h.get('est_s') or 60)))
+        spent += max(time.time() - t1, (r or {}).get('time_s') or 0)
         verdict, reason = KANI.evaluate(h, r)
+        if stats is not None:
+            stats['run'] += 1
+            stats[{'pass': 'passed', 'fail': 'failed'}.get(verdict, 'unfinished')].append(h['name'])
         if verdict == 'fail' and tests:
             return dict(engine='kani', harness=h['name'], config=h.get('config'), mode=m, failed_checks=(r or {}).get('failed_checks', []),
                         playback_tests=tests, note='concrete inputs are the byte vectors in the playback test(s); replay with ./check <id> --replay <this file>')
